@@ -222,7 +222,37 @@ def lookups_cold(fs):
 
 TABLE = [F(x) for x in fft._log_cache]
 
+def built_track_sharing(how, arg):
+    """build a track in one call (from_chords on a chord list with repeats, add_notes of one container several times, a
+    NoteContainer built from another), then change ONE entry's container in place and report every OTHER entry that changed"""
+    t = Track()
+    if how == "from_chords":
+        t.from_chords(arg, 1)
+    elif how == "same_container":
+        nc = NoteContainer(arg)
+        for _ in range(3):
+            t.add_notes(nc, 4)
+    elif how == "copied_container":
+        nc = NoteContainer(arg)
+        t.add_notes(nc, 4); t.add_notes(NoteContainer(nc), 4); t.add_notes(NoteContainer() + nc, 4)
+    def snap():
+        return [None if e[2] is None else [(n.name, n.octave) for n in e[2]] for b in t.bars for e in b.bar]
+    bad = []
+    entries = [e for b in t.bars for e in b.bar]
+    for i, e in enumerate(entries):
+        if e[2] is None:
+            continue
+        before = snap()
+        e[2].augment()
+        after = snap()
+        for j in range(len(before)):
+            if j != i and before[j] != after[j]:
+                bad.append("changing entry %d of a track built with %s(%r) changed entry %d" % (i, how, arg, j))
+        e[2].diminish()
+    return bad[:3]
+
 IMPL = {
+    "alias.built": built_track_sharing,
     "alias.memo": run_memo,
     "alias.battery": memo_then_battery,
     "alias.args": arg_aliasing,
@@ -267,6 +297,9 @@ def cases(tier, rng):
         yield Case("alias.battery", [rand_calls(rng, rng.randint(10, 60))], "memo/battery", model=False, kind=("battery",))
     for name, _ in public_functions():
         yield Case("alias.args", [name], "args/" + name.split(".")[0], model=False, kind=("args",))
+    for cl in (["C", "F", "G", "C"], ["Am", "Am"], ["C", ["F", "C"], None, "C"], ["Dm7", "G7", "Dm7", "G7"]):
+        yield Case("alias.built", ["from_chords", cl], "instances/built-track", model=False, kind=("list",))
+    yield Case("alias.built", ["copied_container", ["C", "E", "G"]], "instances/built-track", model=False, kind=("list",))
     yield Case("alias.methods", [], "args/methods", model=False, kind=("list",))
     yield Case("alias.siblings", [], "instances/siblings", model=False, kind=("list",))
     for cls in ["NoteContainer", "Bar", "Track", "Composition", "Suite"]:
